@@ -394,6 +394,10 @@ func c11Tree(lab []int, withLink bool, kind fsmodel.Kind) fsmodel.Tree {
 		}
 		if kind == fsmodel.Symlink {
 			n.Perm, n.Link = 0777, fmt.Sprintf("../target-%d", seed)
+			n.Xattrs = map[string]string{"trusted.s": fmt.Sprint(seed)} // links carry attributes of their own
+		}
+		if kind == fsmodel.File && lab[i] > 0 {
+			n.Xattrs = map[string]string{"user.g": fmt.Sprint(lab[i])} // reported for every name of the inode
 		}
 		t = append(t, n)
 	}
